@@ -256,7 +256,7 @@ static unsigned long range_assign (Elem *dst, const Elem *src, unsigned long n, 
   /* byte offsets (relative to the range start) that were processed: forward [0, done), backward [n - done, n);
      the failing element gets an unspecified value */
   unsigned long lo = (backward ? n - done : 0) << ESZ_LOG2, hi = (backward ? n : done) << ESZ_LOG2;
-  unsigned long bad = (backward ? (n - done - 1) : done) << ESZ_LOG2;     /* meaningful only if threw */
+  unsigned long bad = threw ? ((backward ? (n - done - 1) : done) << ESZ_LOG2) : 0;
   int o0 = WS[0], o1 = WS[1], o2 = WS[2];
 #define BOFF(p, base) (OFF (p) - OFF (base))
 #define SRC_IS(j, i) (SAMEOBJ (WP[j], src) && OFF (WP[j]) >= OFF (src) && BOFF (WP[j], src) == BOFF (WP[i], dst))
